@@ -330,7 +330,8 @@ LOOP_INV = ('vf_begin0.v == &localPending && vf_end0.v == &localPending && vf_ra
 for sh, w in ((True, is_sh), (False, not_sh)):
     FN.setdefault(r'deferred_guarded::do_pending_writes_internal', []).append(dict(
         props='C02 C06 C20', where=w, setup=SETUP,
-        requires=['G(self) && DG(self) && self->m_mutex.excl_me && vf_held == 1 && FREE(' + QM + ') && !vf_exc && g_t_clear == 0 && g_t_swap == 0 && g_runs == 0 && g_f_runs == 0 && '
+        requires=[('C02 C06', 'self->m_mutex.excl_me', 'G2: the drain is only entered by a thread that holds the object mutex EXCLUSIVELY (a shared hold would run modifications next to readers)'),
+                  'G(self) && DG(self) && vf_held == 1 && FREE(' + QM + ') && !vf_exc && g_t_clear == 0 && g_t_swap == 0 && g_runs == 0 && g_f_runs == 0 && '
                   'g_f_deleted == 0 && !g_in_task && !g_flag_seen_x && g_ev <= 20 && ' + EVB + ' && ' + R3],
         ensures=[('C06', 'g_flag_seen_x ==> g_t_swap > 0', 'a raised flag seen under the exclusive lock leads to a drain'),
                  ('C06', '(g_quiet && __CPROVER_old(self->m_pendingWrites.v)) ==> g_t_swap > 0', 'no stranding: called with the flag raised (and no interference), it drains'),
